@@ -207,17 +207,15 @@ func mergeStringAuditInfoMaps(ms ...map[string]*scipipe.AuditInfo) (merged map[s
 
 func sortAuditInfosByStartTime(auditInfosByID map[string]*scipipe.AuditInfo) []*scipipe.AuditInfo {
 	sorted := []*scipipe.AuditInfo{}
-
-	auditInfosByStartTime := map[time.Time]*scipipe.AuditInfo{}
-	startTimes := []time.Time{}
 	for _, ai := range auditInfosByID {
-		auditInfosByStartTime[ai.StartTime] = ai
-		startTimes = append(startTimes, ai.StartTime)
+		sorted = append(sorted, ai)
 	}
-	sort.Slice(startTimes, func(i, j int) bool { return startTimes[i].Before(startTimes[j]) })
-	for _, t := range startTimes {
-		sorted = append(sorted, auditInfosByStartTime[t])
-	}
+	// Sort the records themselves (not their start times), so that records
+	// sharing a start time (such as all source files, which have a zero time)
+	// are all kept. Sorting on ID first makes the order among such records
+	// deterministic.
+	sort.Slice(sorted, func(i, j int) bool { return sorted[i].ID < sorted[j].ID })
+	sort.SliceStable(sorted, func(i, j int) bool { return sorted[i].StartTime.Before(sorted[j].StartTime) })
 	return sorted
 }
 
